@@ -225,7 +225,7 @@ def main():
     if tier == "quick":
         shapes = [(1, 1), (2, 2), (3, 2), (2, 3), (3, 3)]
         bmc = [(2, 2, 3)]
-        tmo = 240000
+        tmo = 900000
     else:
         shapes = [(w, d) for w in (1, 2, 3, 4) for d in (1, 2, 3, 4)] + [(2, 6), (2, 8), (6, 2)]
         bmc = [(2, 2, 4), (3, 2, 3), (1, 1, 5), (2, 1, 5)]
